@@ -496,7 +496,7 @@ fn main() {
     let a = args();
     quiet_panics();
     let mut r = Rng::new(a.seed);
-    let mut cw = CaseWriter::new(&a.out, "Corr.C31", 6);
+    let mut cw = CaseWriter::new(&a.out, "Corr.C31", 3);
     let mut rep = Report::new(&a.out);
     let mut hist = BTreeMap::<String, u64>::new();
     let mut distinct = BTreeSet::<String>::new();
